@@ -39,6 +39,9 @@ pub struct BatchCase {
 	pub binary: bool,
 	pub text_mut: TextMut,
 	pub permute: bool,
+	/// 0 = TowerService, 1 = low-level entry points, 2 = TowerService built through set_http_middleware
+	#[serde(default)]
+	pub entry: u8,
 }
 
 fn arb_entry_built() -> BoxedStrategy<Built> {
@@ -270,7 +273,7 @@ async fn run_one_batch(fix: &Fixture, ws: &mut WsPeer, entries: &[Entry], js: &[
 		let actors0 = fix.ctx.actors.lock().len();
 		// ---- deliver
 		let (reply_text, extra_frames): (Option<Vec<u8>>, Vec<WsEvent>) = if transport == "http" {
-			let r = fix.http_post(bytes).await;
+			let r = fix.http_post_e(bytes).await;
 			settle().await;
 			let ok_status = r.status == 200 || (gate == Some(-32700) && r.status == 400);
 			obs.check(ok_status, "c02/http-status", || format!("{} => {}", shown(), r.status));
@@ -428,7 +431,7 @@ async fn run_one_batch(fix: &Fixture, ws: &mut WsPeer, entries: &[Entry], js: &[
 						}
 						// the very same text the entry had inside the array (error texts quote line/column positions)
 						let alone_text = js[i].styled(&mut Style::new(case.tape.clone()));
-						let alone = fix.http_post(alone_text.as_bytes()).await;
+						let alone = fix.http_post_e(alone_text.as_bytes()).await;
 						settle().await;
 						let av = serde_json::from_slice::<Value>(&alone.body).ok();
 						let found = av.as_ref().is_some_and(|a| elems.iter().any(|e| e == a));
@@ -481,8 +484,8 @@ impl SubCheck for Batches {
 		];
 		let cfg = prop_oneof![4 => Just(BatchCfg::Unlimited), 1 => Just(BatchCfg::Disabled), 3 => (0u32..6).prop_map(BatchCfg::Limit)];
 		let tm = prop_oneof![12 => Just(TextMut::None), 1 => any::<u16>().prop_map(TextMut::Truncate), 1 => Just(TextMut::TrailingComma), 1 => Just(TextMut::Garbage)];
-		(entries, cfg, arb_tape(), proptest::collection::vec(any::<u8>(), 0..6), any::<bool>(), tm, any::<bool>())
-			.prop_map(|(entries, cfg, tape, gaps, binary, text_mut, permute)| BatchCase { entries, cfg, tape, gaps, binary, text_mut, permute })
+		(entries, cfg, arb_tape(), proptest::collection::vec(any::<u8>(), 0..6), any::<bool>(), tm, any::<bool>(), prop_oneof![6 => Just(0u8), 3 => Just(1u8), 1 => Just(2u8)])
+			.prop_map(|(entries, cfg, tape, gaps, binary, text_mut, permute, entry)| BatchCase { entries, cfg, tape, gaps, binary, text_mut, permute, entry })
 			.boxed()
 	}
 	fn run(&self, case: &BatchCase, obs: &mut Obs) {
@@ -537,8 +540,13 @@ impl SubCheck for Batches {
 		obs.sample(json!({"batch": String::from_utf8_lossy(&first_bytes), "cfg": format!("{:?}", case.cfg)}));
 		let rt = rt();
 		rt.block_on(async {
-			let fix = Fixture::new(Cfg { batch: case.cfg, ..Cfg::default() });
-			let mut ws = fix.ws().await.expect("ws");
+			let fix = Fixture::new(Cfg { batch: case.cfg, entry: if case.entry == 1 { 1 } else { 0 }, via_set_http_middleware: case.entry == 2, ..Cfg::default() });
+			obs.class(match case.entry {
+				1 => "entry:low-level",
+				2 => "entry:set_http_middleware",
+				_ => "entry:tower-service",
+			});
+			let mut ws = fix.ws_e().await.expect("ws");
 			for ord in &orders {
 				let es: Vec<Entry> = ord.iter().map(|i| case.entries[*i].clone()).collect();
 				let pj: Vec<J> = ord.iter().map(|i| js[*i].clone()).collect();
